@@ -69,6 +69,7 @@ def _witness(shape, needle):
 WITNESS = {
     "F-C01-optional-self-reference": _witness("optional-self-ref", "unsupported operand type(s) for |: 'str' and 'NoneType'"),
     "F-C01-field-shadows-type": _witness("shadowing-field-names", "unsupported operand type(s) for |"),
+    "F-C01-mutual-object-refs-circular-import": _witness("mutual-object-refs", "partially initialized module"),
 }
 
 MANIFEST = {
